@@ -1,6 +1,8 @@
 //! C16 — correspondence of `trion::uf2::write::Uf2Write` with the Lean model `Trion.Uf2` and the property
 //! oracle: an independent UF2 reader written here, checking exactly the statement of C16 on the bytes the
 //! real writer leaves in its destination after it has been dropped.
+// catch-all arms keep the harness compiling when the crate adds a variant to one of its error enums (the outcome is then `unknown:<Debug>`)
+#![allow(unreachable_patterns)]
 use std::cell::RefCell;
 
 use trion::uf2::write::{NewError, Uf2Write, WriteError};
@@ -94,6 +96,7 @@ fn show_werr(e: &WriteError) -> String
 		WriteError::Alignment{len, align} => format!("err:aln:{len}:{align}"),
 		WriteError::Address{need, have} => format!("err:adr:{need}:{have}"),
 		WriteError::BlockCount{need, have} => format!("err:cnt:{need}:{have}"),
+		e => format!("err:unknown:{e:?}"),
 	}
 }
 
@@ -127,6 +130,7 @@ pub fn run_real(c: &Case) -> Real
 		{
 			Err(NewError::BlockSize(b)) => *new.borrow_mut() = format!("new=err:bs:{b}"),
 			Err(NewError::Alignment{align, block_size}) => *new.borrow_mut() = format!("new=err:al:{align}:{block_size}"),
+			Err(e) => *new.borrow_mut() = format!("new=err:unknown:{e:?}"),
 			Ok(mut w) =>
 			{
 				*new.borrow_mut() = "new=ok".to_owned();
